@@ -1,3 +1,3 @@
 SPECIFICATION Spec
 CONSTANT Nets <- NetsThorough
-INVARIANTS VerdictIsDefinition ChainValid WorkPositive BoundaryBounded InteriorConstant ReduceShape NoRetargetConstant
+INVARIANTS ChainValid WorkPositive BoundaryBounded InteriorConstant ReduceShape NoRetargetConstant
